@@ -937,6 +937,12 @@ mod n {
     ///  3: a wall behind the building (north) which can never be hit, 4: a low parapet far south (hides only very low sun),
     ///  5: an oblique screen whose bounding box contains the window
     fn c12_model(win_variant: usize, obstacles: &[bool; 6]) -> Model {
+        c12_model_n(win_variant, obstacles, false)
+    }
+
+    /// `crowd`: 36 more small shades scattered around (none can hide the window) so that the acceleration structure
+    /// of sunlit_fraction (leaf size 30) really splits
+    fn c12_model_n(win_variant: usize, obstacles: &[bool; 6], crowd: bool) -> Model {
         let mut m = mk::empty_model();
         m.spaces.push(mk::space(0xA0, true, ST::CONDITIONED, 1.0, 3.0));
         m.cons.materials.push(mk::material(0xE0, 0.5));
@@ -971,6 +977,12 @@ mod n {
         if obstacles[4] {
             m.shades.push(Shade { id: mk::uid(0x33), name: "parapet".into(), geometry: WallGeom { tilt: 90.0, azimuth: 0.0, position: Some(point![-10.0, -30.0, 0.0]), polygon: mk::rect(30.0, 1.0) } });
         }
+        if crowd {
+            for i in 0..36u128 {
+                let f = i as f32;
+                m.shades.push(Shade { id: mk::uid(0x100 + i), name: format!("far{}", i), geometry: WallGeom { tilt: 90.0, azimuth: 10.0 * f, position: Some(point![-30.0 + 2.0 * f, 20.0 + (i % 5) as f32 * 3.0, 0.5 * (i % 3) as f32]), polygon: mk::rect(1.0, 1.0) } });
+            }
+        }
         if obstacles[5] {
             // an oblique screen (30 degrees off the facade) passing 1..6 m in front: its bounding box contains the window
             m.shades.push(Shade { id: mk::uid(0x34), name: "screen".into(), geometry: WallGeom { tilt: 90.0, azimuth: 30.0, position: Some(point![-4.0, -6.0, 0.0]), polygon: mk::rect(12.0, 9.0) } });
@@ -980,7 +992,7 @@ mod n {
 
     #[test]
     fn n_c12_sunlit() {
-        drive("C12.sunlit", "Model::sunlit_fraction: south window (normal / set back 0.3 / without position / wall missing / wall without position) x all subsets of 6 obstacles (one oblique) x sun azimuth {0,60,-60,180} x altitude {8,35,75}; each subset is compared with every one-obstacle extension", |c| {
+        drive("C12.sunlit", "Model::sunlit_fraction: south window (normal / set back 0.3 / without position / wall missing / wall without position) x all subsets of 6 obstacles (one oblique) x sun azimuth {0,60,-60,180} x altitude {8,35,75} x with / without 36 extra shades behind the facade (more than 30 occluders); each subset is compared with every one-obstacle extension", |c| {
             let wv = c.pick(5);
             let mut obs = [false; 6];
             for k in 0..6 {
@@ -988,10 +1000,11 @@ mod n {
             }
             let az = c.of(&[0.0f32, 60.0, -60.0, 180.0]);
             let alt = c.of(&[8.0f32, 35.0, 75.0]);
-            c.note(format!("window variant {} obstacles {:?} sun az {} alt {}", wv, obs, az, alt));
+            let crowd = c.flag();
+            c.note(format!("window variant {} obstacles {:?} sun az {} alt {} crowd {}", wv, obs, az, alt, crowd));
             let dir = ray_dir_to_sun(az, alt);
             let eval = |o: &[bool; 6]| -> f32 {
-                let m = c12_model(wv, o);
+                let m = c12_model_n(wv, o, crowd);
                 let w = &m.windows[0];
                 let origins = m.ray_origins_for_window(w);
                 let occ = m.collect_occluders();
@@ -1014,6 +1027,13 @@ mod n {
                         c.check("C12.sunlit.hidden", f == 0.0, || format!("window fully hidden but sunlit fraction {}", f));
                     }
                 }
+            }
+            if crowd {
+                // 36 shades behind the facade: more than one leaf in the acceleration structure, same answer
+                let m0 = c12_model_n(wv, &obs, false);
+                let w0 = &m0.windows[0];
+                let f0 = m0.sunlit_fraction(w0, &m0.ray_origins_for_window(w0), &dir, &m0.collect_occluders());
+                c.check("C12.sunlit.crowd_invariant", f0 == f, || format!("36 shades that cannot hide the window change the sunlit fraction from {} to {}", f0, f));
             }
             // adding an obstacle never increases the sunlit fraction
             for k in 0..6 {
